@@ -1,8 +1,8 @@
 package main
 
 import (
-	"encoding/binary"
 	"crypto/sha256"
+	"encoding/binary"
 	"encoding/json"
 	"fmt"
 	"math/big"
